@@ -29,7 +29,8 @@ RULE = ("A case is a history: a list of ops executed in one fresh python subproc
         "constant signature, theorems as hyps/prop walked over public fields, attributes, overloads) and compared with "
         "the dump of an independent reference loader run in another fresh process. Ops: import M (14 modules, 10 of "
         "which load theories at import), load(theory, limit) for any of the 43 library theories and limit in "
-        "{none, 'start', any item}, load with a limit naming no item (must raise TheoryException), load_metadata(), and "
+        "{none, 'start', any item}, load with a limit naming no item (must raise TheoryException), load_metadata(), "
+        "extending the loaded theory object in place (as app/ide.py does after a load), and "
         "- on a private scratch copy of the sources - touch / insert an axiom / delete an item / restore / add an "
         "import to a library file between loads, a ring of theories importing each other (loading one must raise) and "
         "a theory whose third item fails during extension (must raise). Every intermediate load is judged too (it must "
@@ -273,6 +274,8 @@ def decode(case):
                 ops.append([k, op[1], norm_limit(op[2])])
             elif k in ('metadata', 'remove_cycle', 'add_broken', 'load_broken', 'remove_broken'):
                 ops.append([k])
+            elif k == 'extend':
+                ops.append([k, str(op[1])])
             elif k in ('touch', 'restore'):
                 if op[1] not in IMPORTS:
                     raise CaseInvalid('theory')
@@ -419,6 +422,10 @@ def classify(ops, final):
         kl.append('limit')
     if 'load_bogus' in kinds:
         kl.append('error-recovery')
+    if any(o[0] == 'load' and o[1:] == final for o in ops):
+        kl.append('reload-same')
+    if 'extend' in kinds:
+        kl.append('extended-in-place')
     if any(k in MUTATING for k in kinds):
         kl.append('file-change')
     if 'load_cycle' in kinds:
@@ -659,7 +666,9 @@ def history_strategy():
 
     import_op = st.sampled_from(MODULES).map(lambda m: ['import', m])
     meta_op = st.just(['metadata'])
-    plain_op = st.one_of(import_op, import_op, load_op(), load_op(), bogus_op(), meta_op)
+    # what app/ide.py does after a load: the loaded theory object is extended in place
+    extend_op = st.integers(0, 2).map(lambda n: ['extend', str(n)])
+    plain_op = st.one_of(import_op, import_op, load_op(), load_op(), bogus_op(), meta_op, extend_op)
     short = st.lists(plain_op, min_size=0, max_size=2)
 
     @st.composite
@@ -701,6 +710,9 @@ def history_strategy():
         shape = draw(st.sampled_from(['plain', 'plain', 'plain', 'plain', 'recovery', 'recovery',
                                       'file', 'file', 'file', 'file', 'cycle', 'broken']))
         pre = draw(short)
+        if draw(st.integers(0, 2)) == 0:
+            # the very load that will be repeated at the end, then (usually) modified in place
+            pre = pre[:1] + [['load', target, limit]] + ([['extend', '0']] if draw(st.booleans()) else [])
         if shape == 'plain':
             ops = pre + [draw(plain_op)]
         elif shape == 'recovery':
